@@ -146,10 +146,12 @@ def handle : Handler
     let selOk := match sel with
       | .at _ => true
       | .name n => declared (s.groups isRet) n
-    let free := selOk && (selTops s isRet sel).any (fun top =>
-      match pathTy top.ty path with
-      | some (.named n u) => (toPrimitive (Ty.named n u).under).isSome
-      | _ => false)
+    let free := selOk && (match (selTops s isRet sel).getLast? with
+      | some top =>
+        match pathTy top.ty path with
+        | some (.named n u) => (toPrimitive (Ty.named n u).under).isSome
+        | _ => false
+      | none => false)
     if free then some "free" else
     match resolve s isRet sel path with
     | .ok (a, b) => some (renderResolved a b)
